@@ -807,6 +807,13 @@ impl<'a> LiveEvents<'a> {
                     // Found the start of the next document
                     self.reset_document_state();
                     self.produced_any_in_doc = false;
+                    // The skipped remainder of the failed document is not charged to the
+                    // budget, but the boundary itself must be reported: per-document accounting
+                    // restarts on this event. A breach raised here (only possible with a
+                    // zero event limit) is raised again by the next observed event.
+                    if let Some(budget) = self.budget.as_mut() {
+                        let _ = budget.observe(&raw);
+                    }
                     return true;
                 }
                 Event::DocumentEnd => {
